@@ -59,16 +59,16 @@ def rule_ctor_dom(ctx: RuleContext, p: Program, rid: str) -> None:
 
 def run(ctx: RuleContext, p: Program) -> None:
     tcs = build_tree_classes(p)
-    gen.rule_cover_init(ctx, p, tcs, 'COVER-INIT')
-    gen.rule_cover_fromchildren(ctx, p, tcs, 'COVER-FROMCHILDREN')
-    gen.rule_fc_iter(ctx, p, tcs, 'FC-ITER')
-    gen.rule_fv_cover(ctx, p, tcs, 'FV-COVER')
+    ctx.try_rule(gen.rule_cover_init, p, tcs, 'COVER-INIT')
+    ctx.try_rule(gen.rule_cover_fromchildren, p, tcs, 'COVER-FROMCHILDREN')
+    ctx.try_rule(gen.rule_fc_iter, p, tcs, 'FC-ITER')
+    ctx.try_rule(gen.rule_fv_cover, p, tcs, 'FV-COVER')
     for r in ('COVER-INIT', 'COVER-FROMCHILDREN', 'FC-ITER'):
         ctx.require_min(r, 34)
     ctx.require_min('FV-COVER', 20)
-    rule_ctor_dom(ctx, p, 'CTOR-DOM')
+    ctx.try_rule(rule_ctor_dom, p, 'CTOR-DOM')
     from . import grammar_rules
-    grammar_rules.rule_gram_fields(ctx, p, tcs, 'GRAM-FIELDS')
+    ctx.try_rule(grammar_rules.rule_gram_fields, p, tcs, 'GRAM-FIELDS')
     ctx.not_decided += ['that the printed text of a constructed model parses (runtime / lexer)',
                         'that the parsed result has equal fields and values (runtime)']
     ctx.assumptions += ['detach()/reattach() semantics as decided under C05', 'separator tokens are deep-copied (SEP-PROV under C03/C11)']
